@@ -7,7 +7,7 @@ from encode import decode
 
 ID = 'C07'
 DOMAIN = 'gin/call'
-PROPS_FILES = ['Gin/Props/C07.lean']
+PROPS_FILES = ['Gin/Props/C07.lean', 'Gin/Props/C07b.lean']
 ANCHOR_FILES = ['config.py']
 RULE = ('C01 generator with allow/deny lists, signature defaults that are sometimes not literally representable '
         '(opaque objects) and bindings to opaque objects; 2-6 calls under random scopes with random caller-supplied / '
